@@ -46,6 +46,27 @@ impl<'a> Read for FaultReader<'a> {
     }
 }
 
+// route 0: Deserializer::from_reader(rd).into_iter(); 1: the IoRead stays with the caller and is lent as `&mut IoRead` to Deserializer::new(..).into_iter();
+// 2: the same through StreamDeserializer::new(&mut io_read) — the failure latch must work through the forwarding `impl Read for &mut R` as well
+fn hist_route<T: serde::de::DeserializeOwned>(rd: FaultReader, n: usize, show: fn(&T) -> String, route: u8) -> String {
+    let mut io_read = serde_json::de::IoRead::new(rd);
+    match route {
+        1 => run_hist(serde_json::Deserializer::new(&mut io_read).into_iter::<T>(), n, show),
+        _ => run_hist(serde_json::StreamDeserializer::<_, T>::new(&mut io_read), n, show),
+    }
+}
+fn run_hist<'de, R: serde_json::de::Read<'de>, T: serde::de::Deserialize<'de>>(mut st: serde_json::StreamDeserializer<'de, R, T>, n: usize, show: fn(&T) -> String) -> String {
+    let mut parts = vec![];
+    for _ in 0..n {
+        let s = match st.next() {
+            None => "N".to_string(),
+            Some(Ok(v)) => format!("V{}", show(&v)),
+            Some(Err(e)) => show_err_item(&e),
+        };
+        parts.push(format!("{}@{}", s, st.byte_offset()));
+    }
+    parts.join(" ")
+}
 fn hist<T: serde::de::DeserializeOwned>(rd: FaultReader, n: usize, show: fn(&T) -> String) -> String {
     let mut st = serde_json::Deserializer::from_reader(rd).into_iter::<T>();
     let mut parts = vec![];
@@ -118,7 +139,13 @@ fn dispatch(f: &[&str]) -> String {
     let mut outs: Vec<String> = vec![];
     for (chunk, interrupts, one_shot) in [(1usize, false, false), (3, false, false), (64, true, false), (1, false, true), (5, true, true)] {
         let rd = FaultReader { data: &data, pos: 0, chunk, fail_at: k.min(data.len()), kind, one_shot, fired: false, tick: 0, interrupts };
-        let h = if ign { hist::<IgnoredAny>(rd, n, si) } else { hist::<Value>(rd, n, sv) };
+        let route = ((chunk + k) % 3) as u8;
+        let h = match (route, ign) {
+            (0, true) => hist::<IgnoredAny>(rd, n, si),
+            (0, false) => hist::<Value>(rd, n, sv),
+            (r, true) => hist_route::<IgnoredAny>(rd, n, si, r),
+            (r, false) => hist_route::<Value>(rd, n, sv, r),
+        };
         // after the first error item only None items are compared (the one-shot reader differs from the persistent one only there if the latch is missing)
         outs.push(h);
     }
